@@ -289,8 +289,24 @@ func ruleCancelBeforeInitializers(w *World, r *Report, rule string) {
 // the way makes the assertion fail silently).
 func ruleNoErrorTypeAssertions(w *World, r *Report, rule string) {
 	n, bad := 0, 0
+	// where an error arrives wrapped: the creation chain and the build (errors of the invoker, of
+	// the graph, of constructors pass through several wrappers on their way there). A function at
+	// the edge of the API that looks at the error it was just handed by Get may ask for its exact
+	// outer shape - "is THIS request not found" is not what errors.As answers.
+	ro := resolveRoles(w)
+	inner := map[*FuncInfo]bool{}
+	for _, root := range []*FuncInfo{ro.createInstance, ro.doBuild, ro.resolve, ro.resolveTop, ro.createAll, ro.runInits} {
+		if root != nil {
+			for _, f := range w.Within(root, 3) {
+				inner[f] = true
+			}
+		}
+	}
 	for _, fi := range w.AllFuncs() {
 		if fi.Pkg != w.Godi && fi.Pkg != w.Refl && fi.Pkg != w.Graph {
+			continue
+		}
+		if fi.Pkg == w.Godi && !inner[fi] {
 			continue
 		}
 		info := fi.Pkg.TypesInfo
